@@ -190,14 +190,12 @@ func (s *Solver) Check(q Query) Answer {
 	// declarations (global, outside the scope)
 	for _, v := range p.SortedVars() {
 		so := term.SortOf(v)
-		if old, ok := s.declared[v.Name]; ok {
-			if old != so {
-				return Answer{Res: Unknown, Err: "variable redeclared with different sort: " + v.Name}
-			}
+		nm := term.VarSMTName(v)
+		if _, ok := s.declared[nm]; ok {
 			continue
 		}
-		s.declared[v.Name] = so
-		s.send(fmt.Sprintf("(declare-const %s %s)", smtNameOf(v), so))
+		s.declared[nm] = so
+		s.send(fmt.Sprintf("(declare-const %s %s)", nm, so))
 	}
 	s.send("(push 1)")
 	for _, d := range defs {
@@ -325,9 +323,4 @@ func parseVal(s string) uint64 {
 		return v
 	}
 	return 0
-}
-
-func smtNameOf(v *term.Term) string {
-	p := term.NewPrinter("x")
-	return p.Ref(v)
 }
